@@ -195,6 +195,7 @@ struct MapInfo {
 	addr: usize,
 	len: usize,
 	file: String,
+	off: u64,
 }
 
 pub struct Disk {
@@ -583,6 +584,28 @@ impl Disk {
 	fn sync_file(&mut self, name: &str) {
 		let sh = read_sparse(&format!("{}{}", self.root, name));
 		self.shadow.insert(name.to_string(), sh);
+	}
+
+	/// durable := live for the pages of one file that intersect [off, off+len).
+	fn sync_range(&mut self, name: &str, off: u64, len: u64) {
+		let live = read_sparse(&format!("{}{}", self.root, name));
+		let end = std::cmp::min(off.saturating_add(len), live.size);
+		let sh = self.shadow.entry(name.to_string()).or_default();
+		if off >= end {
+			return
+		}
+		let (p0, p1) = (off / PAGE as u64, (end + PAGE as u64 - 1) / PAGE as u64);
+		if p0 == 0 && end >= live.size {
+			*sh = live;
+			return
+		}
+		sh.pages.retain(|p, _| *p < p0 || *p >= p1);
+		for (p, pg) in live.pages {
+			if p >= p0 && p < p1 {
+				sh.pages.insert(p, pg);
+			}
+		}
+		sh.size = std::cmp::max(sh.size, end);
 	}
 
 	/// Number of 4 KiB pages (or log bytes) by which live differs from durable, per file.
@@ -1123,7 +1146,8 @@ pub unsafe extern "C" fn msync(addr: *mut c_void, len: size_t, flags: c_int) -> 
 	}
 	let d = disk();
 	let a = addr as usize;
-	let Some(name) = d.maps.iter().find(|m| a >= m.addr && a < m.addr + m.len).map(|m| m.file.clone())
+	let Some((name, file_off)) =
+		d.maps.iter().find(|m| a >= m.addr && a < m.addr + m.len).map(|m| (m.file.clone(), m.off + (a - m.addr) as u64))
 	else {
 		return libc::syscall(libc::SYS_msync, addr, len, flags) as c_int
 	};
@@ -1138,8 +1162,8 @@ pub unsafe extern "C" fn msync(addr: *mut c_void, len: size_t, flags: c_int) -> 
 		r = -1;
 	} else {
 		d.maybe_snapshot(Ev::Msync, &name, true);
-		// All msync calls issued by memmap2::flush cover the whole mapping.
-		d.sync_file(&name);
+		// only the pages of the named range become durable
+		d.sync_range(&name, file_off, len as u64);
 		d.record(Ev::Msync, &name, len as u64, 0, 0);
 		d.maybe_snapshot(Ev::Msync, &name, false);
 		if d.armed {
@@ -1180,7 +1204,7 @@ unsafe fn mmap_impl(
 		let res = libc::syscall(libc::SYS_mmap, addr, len, prot, flags, fd, off) as *mut c_void;
 		let saved = *libc::__errno_location();
 		if res != libc::MAP_FAILED {
-			d.maps.push(MapInfo { addr: res as usize, len, file: name.clone() });
+			d.maps.push(MapInfo { addr: res as usize, len, file: name.clone(), off: off as u64 });
 		}
 		d.record(Ev::Mmap, &name, len as u64, 0, if res == libc::MAP_FAILED { -1 } else { 0 });
 		if d.armed {
